@@ -1,7 +1,11 @@
 import PV.Common.Proto
 import PV.C03.Escapes
+import PV.C07.Model
+import PV.C03.ErrConv
 /-! Driver for C03: answers the kernel requests of `harness/src/bin/pvh_c03.rs` with the models of
-    `PV/C03/Escapes.lean`.  The glue below (`decodeBody`) is the plain-character loop of
+    `PV/C03/Escapes.lean`, the `fscan` requests with the full-alphabet f-string scanner model of C07
+    (`PV.C07.Model`, the model the theorems `fstring_*` of `PV/C03/Thm.lean` are about) and the
+    `errconv` requests with `PV.C03.ErrConv`.  The glue below (`decodeBody`) is the plain-character loop of
     `parse_string` / `parse_bytes` and the escape dispatch of `parse_escaped_char`, only as far as
     the request alphabets need it; the kernels themselves live in `PV.C03`. -/
 open PV PV.C03
@@ -85,7 +89,99 @@ def showFOut : FOut → String
   | .err o _ => s!"err@{o}"
   | .oof _ => "out-of-fuel"
 
+/-- `fscan <source>`: a source made of adjacent string literals, at least one of them an f-string,
+    through the C06 literal lexer (`lexLits`) and the FULL-alphabet scanner model of C07
+    (`parseStringsF` = `parse_strings` → `StringParser::parse` → `parse_fstring`); only `ok` / the error
+    offset / `panic` are printed, as the real parser's answer is projected by the harness. -/
+def fscan (src : List Nat) : String :=
+  let showE (e : PV.C06.Err) : String :=
+    match e.kind with
+    | .panic => "panic"
+    | _ => s!"err@{e.loc}"
+  match PV.C06.lexLits (src.length + 1) src 0 with
+  | none => "unsupported"
+  | some (.error e) => showE e
+  | some (.ok toks) =>
+    match PV.C06.allStrings toks with
+    | none => "unsupported"
+    | some [] => "unsupported"
+    | some sts =>
+      match PV.C06.parseStrings lookName sts with
+      | some (.error e) => showE e
+      | some (.ok _) => "ok"
+      | none =>
+        match PV.C07.parseStringsF lookName sts with
+        | .error e => showE e
+        | .ok _ => "ok"
+
+/-! ### `errconv`: the public `ParseError` recomputed from the reconstructed LALRPOP error -/
+
+open PV.C03.ErrConv in
+/-- `v=` argument: `I:<loc>` | `E:<loc>:<expected>` | `T:<l>:<Tok>:<r>:<expected>` | `X:<l>:<Tok>:<r>` |
+    `U:<Kind>:<loc>`; `<expected>` = names separated by `,`, `-` for the empty list -/
+def parseVariant (a : String) : Option Lalr :=
+  let exp (x : String) : List String := if x == "-" then [] else x.splitOn ","
+  match a.splitOn ":" with
+  | ["I", loc] => loc.toNat?.map .invalidToken
+  | ["E", loc, ex] => loc.toNat?.map (fun l => .unrecognizedEof l (exp ex))
+  | ["T", l, tok, r, ex] =>
+    match l.toNat?, r.toNat? with
+    | some l, some r => some (.unrecognizedToken l tok r (exp ex))
+    | _, _ => none
+  | ["X", l, tok, r] =>
+    match l.toNat?, r.toNat? with
+    | some l, some r => some (.extraToken l tok r)
+    | _, _ => none
+  | ["U", kind, loc] => loc.toNat?.map (.user kind)
+  | _ => none
+
+open PV.C03.ErrConv in
+/-- `t=` argument: `l:Tok:r;…` or `-` -/
+def parseTriples (a : String) : Option (List Triple) :=
+  if a == "-" then some []
+  else (a.splitOn ";").mapM fun it =>
+    match it.splitOn ":" with
+    | [l, tok, r] =>
+      match l.toNat?, r.toNat? with
+      | some l, some r => some (l, tok, r)
+      | _, _ => none
+    | _ => none
+
+/-- `x=` argument: `Kind@loc` or `-` -/
+def parseLexErr (a : String) : Option (Option (String × Nat)) :=
+  if a == "-" then some none
+  else match a.splitOn "@" with
+    | [kind, loc] => loc.toNat?.map (fun l => some (kind, l))
+    | _ => none
+
+open PV.C03.ErrConv in
+def showPErr (e : PErr) : String :=
+  let k := match e.error with
+    | .eof => "Eof"
+    | .extraToken t => s!"ExtraToken:{t}"
+    | .invalidToken => "InvalidToken"
+    | .unrecognizedToken t ex => s!"UnrecognizedToken:{t}:{ex.getD "-"}"
+    | .lexical kind => s!"Lexical:{kind}"
+  s!"{k}@{e.offset}"
+
+open PV.C03.ErrConv in
+def errconv (start : Nat) (args : List String) : String :=
+  let arg (p : String) : Option String := (args.find? (·.startsWith p)).map (fun a => (a.drop p.length).toString)
+  match (arg "v=").bind parseVariant, (arg "t=").bind parseTriples, (arg "x=").bind parseLexErr with
+  | some v, some toks, some lexErr =>
+    let e := parseStartsAtErr start v
+    let ind := if isIndentationError e.error then 1 else 0
+    let rep := if reports toks lexErr v then "ok" else "BAD"
+    s!"{showPErr e} indent={ind} reports={rep}"
+  | _, _, _ => "bad-request"
+
 def handle : List String → String
+  | "errconv" :: _ :: start :: _ :: args => match start.toNat? with
+    | some k => errconv k args
+    | none => "bad-request"
+  | ["fscan", t] => match (unhex t).bind utf8Decode with
+    | some cs => fscan cs
+    | none => "bad-request"
   | ["oct", kind, t] => match (unhex t).bind utf8Decode with
     | some cs => runLiteral (kind == "b") (92 :: cs)
     | none => "bad-request"
